@@ -212,6 +212,304 @@ def drawArgs2 (bnd : Bnd) (thorough : Bool) (e : Entry2) (s : UInt64) : List Val
         let (v, s) := drawArg bnd w earlier s
         (acc.1 ++ [Val.n v], s)) ([], s)
 
+/-! ### BEGIN cfunb: directed argument generation for the second batch of stage-2 functions (NOTES_cfunb.md)
+
+The kernels of src/simd/dispatch.c and the array loops of the encodings take several arrays whose lengths are tied by a
+`count`: the generic generator above rarely produces a call that is defined.  For these functions three quarters of the
+tuples are drawn here: lengths from `lengths` (every block / word / vector boundary 0..13, 15..17, 31..34, 63..65, ...),
+every array exactly as long as the contract says, and - with small probability each - one hostile deviation (count one
+more / one less / negative / INT64_MIN, an output one element short, an index outside the dictionary, a `limit` beyond
+the buffer, overlapping 8-byte copies).  The generated `_defined` verdict still decides whether the call is executed. -/
+
+def drawCountB (n : Nat) (s : UInt64) : Nat × UInt64 :=
+  let (k, s) := below s 40
+  (if k < 33 then n else if k < 35 then n + 1 else if k < 37 then n - 1 else if k = 37 then 2 ^ 64 - 1
+   else if k = 38 then 2 ^ 63 else 0, s)
+
+def drawBytesB (n : Nat) (s : UInt64) : List Nat × UInt64 := drawElems 8 n s
+
+/-- `n` elements below `m` (all 0 when `m = 0`) -/
+def drawBelowB (m n : Nat) (s : UInt64) : List Nat × UInt64 :=
+  let (a, s) := (List.range n).foldl (fun (acc : Array Nat × UInt64) _ =>
+    let (r, s) := below acc.2 m
+    (acc.1.push r, s)) (#[], s)
+  (a.toList, s)
+
+def shortenB (xs : List Nat) (s : UInt64) : List Nat × UInt64 :=
+  let (k, s) := below s 16
+  (if k = 0 then xs.dropLast else xs, s)
+
+def drawArgsB (bnd : Bnd) (thorough : Bool) (e : Entry2) (s : UInt64) : Option (List Val × UInt64) :=
+  let widthOf := fun (nm : String) => match (e.args.find? (·.1 == nm)).map (·.2) with
+    | some (.arr w) => w
+    | some (.int w _) => w
+    | _ => 8
+  match e.name with
+  | "scalar_prefix_sum_i32" | "scalar_prefix_sum_i64" =>
+    let w := widthOf "values"
+    let (n, s) := drawLen thorough s
+    let (xs, s) := drawElems w n s
+    let (c, s) := drawCountB n s
+    let (i, s) := drawArg bnd w #[] s
+    some ([.a xs, .n c, .n i], s)
+  | "scalar_gather_i32" | "scalar_gather_i64" | "scalar_gather_float" | "scalar_gather_double" =>
+    let w := widthOf "dict"
+    let (m, s) := below s 41
+    let (m2, s) := below s 8
+    let m := if m2 = 0 then m * 7 else m
+    let (dict, s) := drawElems w m s
+    let (n, s) := drawLen thorough s
+    let (idx, s) := drawBelowB m n s
+    let (h, s) := below s 8
+    let (pos, s) := below s (n + 1)
+    let (hv, s) := below s 4
+    let bad := if hv = 0 then m else if hv = 1 then m + 1 else if hv = 2 then 2 ^ 31 else 2 ^ 32 - 1
+    let idx := if h = 0 then idx.set pos bad else idx
+    let (out, s) := drawElems w n s
+    let (out, s) := shortenB out s
+    let (c, s) := drawCountB n s
+    some ([.a dict, .a idx, .n c, .a out], s)
+  | "scalar_byte_split_encode_float" | "scalar_byte_split_decode_float" | "scalar_byte_split_encode_double"
+  | "scalar_byte_split_decode_double" =>
+    let k := if e.name.endsWith "float" then 4 else 8
+    let (n, s) := drawLen false s
+    let n := n % 90
+    let (a, s) := drawBytesB (k * n) s
+    let (a, s) := shortenB a s
+    let (b, s) := drawBytesB (k * n) s
+    let (b, s) := shortenB b s
+    let (c, s) := drawCountB n s
+    some ([.a a, .n c, .a b], s)
+  | "scalar_unpack_bools" =>
+    let (n, s) := drawLen thorough s
+    let (a, s) := drawBytesB ((n + 7) / 8) s
+    let (a, s) := shortenB a s
+    let (b, s) := drawBytesB n s
+    let (b, s) := shortenB b s
+    let (c, s) := drawCountB n s
+    some ([.a a, .a b, .n c], s)
+  | "scalar_pack_bools" =>
+    let (n, s) := drawLen thorough s
+    let (mode, s) := below s 3
+    let (a, s) := if mode = 0 then drawBytesB n s else drawBelowB 2 n s
+    let (a, s) := shortenB a s
+    let (b, s) := drawBytesB ((n + 7) / 8) s
+    let (b, s) := shortenB b s
+    let (c, s) := drawCountB n s
+    some ([.a a, .a b, .n c], s)
+  | "scalar_find_run_length_i32" =>
+    let (n, s) := drawLen thorough s
+    let (r, s) := below s (n + 1)
+    let (v, s) := drawArg bnd 32 #[] s
+    let (t, s) := drawElems 32 (n - r) s
+    let (full, s) := below s 3
+    let xs := if full = 0 then List.replicate n v else List.replicate r v ++ t
+    let (c, s) := drawCountB n s
+    some ([.a xs, .n c], s)
+  | "scalar_match_copy" =>
+    let (L, s) := drawLen thorough s
+    let (oi, s) := below s 14
+    let (orand, s) := below s (L + 1)
+    let o := #[1, 2, 3, 4, 5, 7, 8, 9, 15, 16, 17, 31].getD oi orand
+    let o := if o > L then L else o
+    let (lk, s) := below s 10
+    let (lr, s) := below s (L - o + 1)
+    let len := if lk < 4 then L - o else if lk = 9 then L - o + 1 else lr
+    let (buf, s) := drawBytesB L s
+    let (hk, s) := below s 12
+    -- hostile: an `offset` of 8 or more with `dst` closer than 8 to `src` (the 8-byte copies overlap)
+    let (dst, off) := if hk = 0 then (o % 8, 9) else (o, o)
+    some ([.n dst, .a buf, .n len, .n off], s)
+  | "scalar_match_length" =>
+    let (L, s) := drawLen thorough s
+    let (off, s) := below s (L + 1)
+    let (raw, s) := drawBytesB L s
+    let (m, s) := below s (L + 1)
+    -- periodic with period `off` for the first `m` bytes behind `off`, then whatever was drawn
+    let buf := (List.range L).foldl (fun (acc : List Nat) i =>
+      acc ++ [if off > 0 && i ≥ off && i < off + m then acc.getD (i - off) 0 else raw.getD i 0]) []
+    let (lk, s) := below s 10
+    let (lr, s) := below s (L + 1)
+    let lim := if lk < 7 then L else if lk = 7 then L + 1 else lr
+    some ([.n off, .a buf, .n lim], s)
+  | "scalar_count_non_nulls" =>
+    let (n, s) := drawLen thorough s
+    let (mode, s) := below s 4
+    let (xs, s) := if mode = 0 then drawElems 16 n s else drawBelowB 4 n s
+    let (c, s) := drawCountB n s
+    let (mx, s) := if mode = 0 then drawArg bnd 16 #[] s else below s 4
+    some ([.a xs, .n c, .n mx], s)
+  | "scalar_build_null_bitmap" =>
+    let (n, s) := drawLen thorough s
+    let (mode, s) := below s 4
+    let (xs, s) := if mode = 0 then drawElems 16 n s else drawBelowB 4 n s
+    let (c, s) := drawCountB n s
+    let (mx, s) := if mode = 0 then drawArg bnd 16 #[] s else below s 4
+    let (bm, s) := drawBytesB ((n + 7) / 8) s
+    let (bm, s) := shortenB bm s
+    some ([.a xs, .n c, .n mx, .a bm], s)
+  | "scalar_fill_def_levels" =>
+    let (n, s) := drawLen thorough s
+    let (xs, s) := drawElems 16 n s
+    let (c, s) := drawCountB n s
+    let (v, s) := drawArg bnd 16 #[] s
+    some ([.a xs, .n c, .n v], s)
+  | "carquet_byte_stream_split_encode" =>
+    let (n, s) := below s 41
+    let (kk, s) := below s 12
+    let k := if kk < 9 then kk + 1 else if kk = 9 then 16 else 0
+    let (tlh, s) := below s 16
+    let tl := if tlh = 0 then 2 ^ 32 - 1 else k            -- a negative type_length
+    let (a, s) := drawBytesB (n * k) s
+    let (a, s) := shortenB a s
+    let (b, s) := drawBytesB (n * k) s
+    let (b, s) := shortenB b s
+    let (c, s) := drawCountB n s
+    let (ck, s) := below s 8
+    let cap := if ck = 0 then n * k - 1 else if ck = 1 then n * k + 5 else n * k
+    let (bw, s) := below s 1000
+    some ([.a a, .n c, .n tl, .a b, .n cap, .n bw], s)
+  | "carquet_byte_stream_split_decode" =>
+    let (n, s) := below s 41
+    let (kk, s) := below s 12
+    let k := if kk < 9 then kk + 1 else if kk = 9 then 16 else 0
+    let (tlh, s) := below s 16
+    let tl := if tlh = 0 then 2 ^ 32 - 1 else k
+    let (a, s) := drawBytesB (n * k) s
+    let (ex, s) := below s 6
+    let (extra, s) := drawBytesB (if ex = 0 then 3 else 0) s
+    let (a, s) := shortenB (a ++ extra) s
+    let (b, s) := drawBytesB (n * k) s
+    let (b, s) := shortenB b s
+    let (c, s) := drawCountB n s
+    let (dk, s) := below s 12
+    let dsz := if dk = 0 then a.length + 1 else a.length      -- a data_size that overstates the input
+    some ([.a a, .n dsz, .n tl, .a b, .n c], s)
+  | "carquet_decode_plain_boolean" =>
+    let (n, s) := drawLen thorough s
+    let (a, s) := drawBytesB ((n + 7) / 8) s
+    let (a, s) := shortenB a s
+    let (b, s) := drawBytesB n s
+    let (b, s) := shortenB b s
+    let (c, s) := drawCountB n s
+    let (dk, s) := below s 12
+    let isz := if dk = 0 then a.length + 1 else a.length
+    some ([.a a, .n isz, .a b, .n c], s)
+  | "carquet_decode_plain_fixed_byte_array" =>
+    let (n, s) := below s 41
+    let (kk, s) := below s 12
+    let k := if kk < 9 then kk + 1 else if kk = 9 then 16 else 0
+    let (tlh, s) := below s 16
+    let fl := if tlh = 0 then 2 ^ 32 - 1 else k
+    let (a, s) := drawBytesB (n * k) s
+    let (ex, s) := below s 6
+    let (extra, s) := drawBytesB (if ex = 0 then 3 else 0) s
+    let (a, s) := shortenB (a ++ extra) s
+    let (b, s) := drawBytesB (n * k) s
+    let (b, s) := shortenB b s
+    let (c, s) := drawCountB n s
+    let (dk, s) := below s 12
+    let isz := if dk = 0 then a.length + 1 else a.length
+    some ([.a a, .n isz, .a b, .n c, .n fl], s)
+  | "write_uleb128" =>
+    let (v, s) := drawArg bnd 64 #[] s
+    let (lk, s) := below s 6
+    let (lr, s) := below s 11
+    let (buf, s) := drawBytesB (if lk = 0 then lr else 10) s
+    some ([.a buf, .n v], s)
+  | "snappy_write_varint" =>
+    let (v, s) := drawArg bnd 32 #[] s
+    let (lk, s) := below s 6
+    let (lr, s) := below s 6
+    let (buf, s) := drawBytesB (if lk = 0 then lr else 5) s
+    some ([.a buf, .n v], s)
+  | "bitunpack_wide" =>
+    let (n, s) := below s 24
+    let (wk, s) := below s 70
+    let w := if wk < 64 then wk + 1 else if wk < 67 then 64 else 33
+    let (a, s) := drawBytesB ((n * w + 7) / 8) s
+    let (a, s) := shortenB a s
+    let (b, s) := drawElems 64 n s
+    let (b, s) := shortenB b s
+    some ([.a a, .n n, .n w, .a b], s)
+  | "bitpack_wide" =>
+    let (n, s) := below s 24
+    let (wk, s) := below s 70
+    let w := if wk < 64 then wk + 1 else if wk < 67 then 64 else 33
+    let (a, s) := drawElems 64 n s
+    let (a, s) := shortenB a s
+    let (b, s) := drawBytesB ((n * w + 7) / 8) s
+    let (b, s) := shortenB b s
+    some ([.a a, .n n, .n w, .a b], s)
+  | "common_prefix_length" =>
+    let (la, s) := drawLen false s
+    let (lb, s) := drawLen false s
+    let (m, s) := below s (min la lb + 1)
+    let (a, s) := drawBytesB la s
+    let (b0, s) := drawBytesB lb s
+    let b := (List.range lb).map fun i => if i < m then a.getD i 0 else b0.getD i 0
+    let (hk, s) := below s 12
+    let alen := if hk = 0 then la + 1 else la
+    let blen := if hk = 1 then lb + 1 else lb
+    some ([.a a, .n alen, .a b, .n blen], s)
+  | "snappy_emit_literal" =>
+    let (li, s) := below s 40
+    let (lr, s) := below s 300
+    let len := #[1, 2, 59, 60, 61, 62, 63, 255, 256, 257, 258, 1000].getD li (if li = 39 then 65536 + lr % 3 - 1 else lr + 1)
+    let hdr := if len ≤ 60 then 1 else if len ≤ 256 then 2 else if len ≤ 65536 then 3 else 4
+    let (ok, s) := below s 10
+    let (op, s) := drawBelowB 4 (if ok = 0 then hdr + len - 1 else if ok = 1 then hdr + len + 3 else hdr + len) s
+    let (lk, s) := below s 14
+    let (lit, s) := drawBelowB 251 (if lk = 0 then len - 1 else len) s
+    some ([.a op, .a lit, .n len], s)
+  | "snappy_emit_copy" =>
+    let (li, s) := below s 30
+    let (lr, s) := below s 400
+    let len := #[4, 5, 11, 12, 13, 59, 60, 63, 64, 65, 66, 67, 68, 69, 71, 72, 127, 128, 131, 132, 133, 196, 3, 0].getD li (lr + 4)
+    let (oi, s) := below s 16
+    let (orr, s) := below s 70000
+    let off := #[1, 2, 255, 256, 257, 2047, 2048, 2049, 65535, 32768].getD oi orr
+    let need := 3 * (len / 64 + 2)
+    let (ok, s) := below s 10
+    let (op, s) := drawBelowB 4 (if ok = 0 then (if len < 12 && off < 2048 then 1 else 2) else need) s
+    some ([.a op, .n off, .n len], s)
+  | "lz4_count" =>
+    let (L, s) := drawLen thorough s
+    let L := L + 7
+    let (off, s) := below s (L + 1)
+    let (raw, s) := drawBytesB L s
+    let (m, s) := below s (L + 1)
+    let buf := (List.range L).foldl (fun (acc : List Nat) i =>
+      acc ++ [if off > 0 && i ≥ off && i < off + m then acc.getD (i - off) 0 else raw.getD i 0]) []
+    let (lk, s) := below s 10
+    let (lr, s) := below s (L + 1)
+    let lim := if lk < 7 then L else if lk = 7 then L + 1 else lr
+    some ([.n off, .a buf, .n lim], s)
+  | _ => none
+
+/-- extra cost of a tuple of the second batch: the loop nests over lists evaluate in quadratic time (a list update per store),
+so the functions that store a whole array get a fifth of the tuples (60 in the quick tier), the others half -/
+def costB (name : String) : Nat :=
+  if ["scalar_byte_split_encode_float", "scalar_byte_split_decode_float", "scalar_byte_split_encode_double",
+      "scalar_byte_split_decode_double", "carquet_byte_stream_split_encode", "carquet_byte_stream_split_decode",
+      "bitunpack_wide", "bitpack_wide", "carquet_decode_plain_boolean", "scalar_unpack_bools", "scalar_pack_bools",
+      "scalar_build_null_bitmap", "scalar_match_copy"].contains name then 4
+  else if name.startsWith "scalar_" || ["carquet_decode_plain_fixed_byte_array", "dict_hash", "common_prefix_length",
+      "lz4_count", "snappy_read32", "lz4_read32", "write_uleb128"].contains name then 1
+  else 0
+
+/-- three quarters directed (where a directed generator exists), one quarter from the generic generator -/
+def drawArgs2B (bnd : Bnd) (thorough : Bool) (e : Entry2) (s : UInt64) : List Val × UInt64 :=
+  let (k, s) := below s 4
+  -- loop nests whose trip counts are two independent integer arguments: a random 31-bit `type_length` with `count = 0` is a
+  -- defined call that spins 2^31 times doing nothing (in C as well); these get directed tuples only
+  let directedOnly := ["carquet_byte_stream_split_encode", "carquet_byte_stream_split_decode", "bitunpack_wide", "bitpack_wide"]
+  if k = 0 && !directedOnly.contains e.name then drawArgs2 bnd thorough e s
+  else match drawArgsB bnd thorough e s with
+    | some r => r
+    | none => drawArgs2 bnd thorough e s
+/-! ### END cfunb -/
+
 def lineOf2 (e : Entry2) (a : List Val) : Option String :=
   match e.eval a with
   | some (_, d) =>
@@ -220,10 +518,10 @@ def lineOf2 (e : Entry2) (a : List Val) : Option String :=
   | none => none
 
 def genEntry2 (bnd : Bnd) (thorough : Bool) (e : Entry2) (budget : Nat) (s : UInt64) (out : Array String) : Array String × UInt64 :=
-  let cost := 1 + (e.fixed.foldl (fun acc f => acc + f.2) 0) / 48
+  let cost := 1 + (e.fixed.foldl (fun acc f => acc + f.2) 0) / 48 + costB e.name        -- cfunb: see `costB`
   let n := max 8 (budget / cost)
   (List.range n).foldl (fun (acc : Array String × UInt64) _ =>
-    let (a, s) := drawArgs2 bnd thorough e acc.2
+    let (a, s) := drawArgs2B bnd thorough e acc.2        -- cfunb: directed generators for the second batch
     match lineOf2 e a with
     | some l => (acc.1.push l, s)
     | none => (acc.1, s)) (out, s)
